@@ -215,6 +215,62 @@ func malformed(u *runner.U) {
 		}
 	}
 	feed("length-above-buffer", append(good(bytes.Repeat([]byte{7}, 300)), d1...), 100, 0)
+	// after an oversized datagram was reported, the reader goes on: whatever it returns without an
+	// error afterwards must be a datagram that was sent, in order (no phantom datagram out of the middle
+	// of the frame it gave up on)
+	for ci, big := range [][]byte{
+		bytes.Repeat([]byte{7}, 300),
+		bytes.Repeat(good([]byte("never sent")), 20),
+		bytes.Repeat([]byte{0, 0, 0, 0xff}, 75),
+		bytes.Repeat([]byte{0}, 300),
+		append([]byte{0, 0, 0, 1, 10, 0, 0, 1, 0, 53}, bytes.Repeat([]byte{0, 0, 2, 0x41, 0x42, 0xff}, 50)...),
+	} {
+		for _, tail := range [][][]byte{{[]byte("hello")}, {[]byte("a"), {}, []byte("bc")}, {}} {
+			var viol string
+			name := fmt.Sprintf("after-oversize content=%d following=%d", ci, len(tail))
+			inSched(func(n *simnet.Net, s *vsched.Sched) {
+				a, b := pipe(n, simnet.StreamOpts{})
+				stream := good(big)
+				for _, d := range tail {
+					stream = append(stream, good(d)...)
+				}
+				a.Write(stream)
+				a.Close()
+				tr := apicommon.NewPacketOverStreamTunnel(b)
+				buf := make([]byte, 100)
+				next := 0
+				reported := false
+				for i := 0; i < 400; i++ {
+					b.SetReadDeadline(s.Now().Add(2 * time.Second))
+					m, err := tr.Read(buf)
+					if err != nil {
+						reported = true
+						if err == io.EOF || world.IsTimeout(err) || i > 390 {
+							break
+						}
+						continue
+					}
+					got := append([]byte(nil), buf[:m]...)
+					for next < len(tail) && !bytes.Equal(tail[next], got) {
+						next++
+					}
+					if next >= len(tail) {
+						viol = fmt.Sprintf("%s: after the oversized datagram the reader returned, without error, a %d-byte datagram %q that nobody sent (the stream was silently desynchronised)", name, m, head(got, 24))
+						return
+					}
+					next++
+				}
+				if !reported {
+					viol = name + ": the oversized datagram was never reported"
+				}
+			})
+			u.Eval(1)
+			u.Distinct(name)
+			if viol != "" {
+				u.Violation("C18/phantom-datagram", viol, name, name)
+			}
+		}
+	}
 	feed("length-equals-buffer", good(bytes.Repeat([]byte{7}, 100)), 100, 1)
 }
 
@@ -743,7 +799,7 @@ func units(tier string) []runner.Unit {
 	}
 	us = append(us, runner.Unit{Name: "malformed-frames", Cost: 1, Run: func(u *runner.U) {
 		malformed(u)
-		u.Sample("truncation after every byte, wrong marker at each marker position, length above / equal to the reader's buffer")
+		u.Sample("truncation after every byte, wrong marker at each marker position, length above / equal to the reader's buffer; after an oversized datagram (5 contents incl. embedded frames) the reader goes on: every datagram returned without error was sent")
 	}})
 	us = append(us, runner.Unit{Name: "udp-associate-wrapper", Cost: 2, Run: func(u *runner.U) {
 		wrapper(u)
